@@ -353,6 +353,10 @@ class Describe(C.Stream):
                 f.append("near-100-chars")
         cs = G.constructors_of(case["expr"])
         f += ["c:" + c for c in sorted(cs)]
+        if G.has_nan(case["expr"]):
+            f.append("nan-value")
+            if G.has_nested_nan(G.literals_of(case["expr"])):
+                f.append("nan-inside-container")
         return f
 
     def shrink(self, case):
